@@ -217,7 +217,8 @@ CLAIMS["C02"] = dict(
         "such leaders ever grow a seed; (5) the property's own example as a theorem (Proofs/GrowAxb.v): on every module whose "
         "method a is the one emitted for  a: a 'x' | 'b'  -- for every number of x tokens, every following token and every "
         "sufficient fuel -- the rule returns the left-nested tree of  b x*  and stops after the last x, and refuses any input not "
-        "starting with b (instance: that method is, as rendered text, the method a of the real generator's output). Examples show "
+        "starting with b; the same for INDIRECT recursion  a: c 'x' | 'b' ; c: a  (Proofs/GrowIndirect.v) entered at the leader a "
+        "or at the other member c (instances: those methods are, as rendered text, the methods of the real generator's output). Examples show "
         "the hypotheses satisfiable. Tie: K-gen (decorator choice incl. helper rules) and K-run with event traces through growth. On the "
         "implementation: left-recursive families (recursive reference bare/named/grouped/behind lookahead/behind nullable "
         "rule/in optional/in loop; cycles of 2-3 rules entered at any member, one member also self-recursive; helpers inside "
